@@ -7,8 +7,13 @@ import json, os, re, shutil, subprocess, sys, time
 pid, X = sys.argv[1], sys.argv[2]
 suite = '--no-suite' not in sys.argv
 src = '/tmp/seed_out/%s' % pid
-wt = '/tmp/confirm_%s_%s' % (pid, X)
-out = '/verif/seeded/%s-%s' % (pid, X)
+NAME = X
+if '--src' in sys.argv:
+    src = sys.argv[sys.argv.index('--src') + 1]
+if '--as' in sys.argv:                      # store under another letter (second-round seeds: A -> C, B -> D)
+    NAME = sys.argv[sys.argv.index('--as') + 1]
+wt = '/tmp/confirm_%s_%s' % (pid, NAME)
+out = '/verif/seeded/%s-%s' % (pid, NAME)
 PY = '/venv/bin/python'
 def sh(cmd, **kw):
     return subprocess.run(cmd, shell=True, capture_output=True, text=True, **kw)
@@ -51,7 +56,7 @@ try:
         open(out + '/patch.diff', 'w').write(diff)
         shutil.copy(demo, out + '/demo.py')
         notes = open(src + '/notes.md').read() if os.path.exists(src + '/notes.md') else ''
-        meta = {'property': pid, 'variant': X, 'base_commit': sh('git -C /repo rev-parse --short HEAD').stdout.strip(),
+        meta = {'property': pid, 'variant': NAME, 'base_commit': sh('git -C /repo rev-parse --short HEAD').stdout.strip(),
                 'needs': '(see notes.md)', 'confirmed': {'demo_clean_exit': 0, 'demo_patched_exit': 1, 'suite': log.get('suite', 'not run')},
                 'ran': ['PYTHONPATH=<wt> /venv/bin/python demo.py (clean: exit 0, patched: exit 1)', 'cd <wt> && /venv/bin/python -m pytest -q -p no:cacheprovider glue -n 10']}
         json.dump(meta, open(out + '/meta.json', 'w'), indent=1)
